@@ -35,6 +35,8 @@ pub enum Act {
 pub struct M07<C: Suite> {
     tier: Tier,
     ns: Vec<usize>,
+    /// signer counts explored without edits (honest accumulation, group sums, exact set accepted, one omission rejected)
+    ns_plain: Vec<usize>,
     sks: Vec<SecretKey<C>>,
     pks: Vec<PublicKey<C>>,
     msg: Vec<u8>,
@@ -45,7 +47,9 @@ pub struct M07<C: Suite> {
 impl<C: Suite> M07<C> {
     pub fn new(tier: Tier, seed: u64) -> Self {
         let ns: Vec<usize> = if tier.thorough() { (2..=64).collect() } else { vec![2, 3, 4, 5, 8, 16] };
-        let nk = ns.iter().max().unwrap() + 1;
+        // every n up to 70 (block sizes 16 / 32 / 64 of batched implementations), and the 7 / 8 / 16 bit boundaries
+        let ns_plain: Vec<usize> = (2..=70).chain([127, 128, 129, 255, 256, 257]).filter(|n| !ns.contains(n)).collect();
+        let nk = ns.iter().chain(ns_plain.iter()).max().unwrap() + 1;
         let sks: Vec<SecretKey<C>> = (0..nk).map(|i| SecretKey::<C>::from_hash(format!("c07-key-{}", i))).collect();
         let pks = sks.iter().map(|s| s.public_key()).collect();
         let msg = msg_of(seed, 12, 3);
@@ -53,6 +57,7 @@ impl<C: Suite> M07<C> {
         M07 {
             tier,
             ns,
+            ns_plain,
             sks,
             pks,
             msg,
@@ -71,7 +76,7 @@ impl<C: Suite> Model for M07<C> {
     fn init(&self) -> Vec<St> {
         let mut v = vec![St::From(vec![])];
         for s in [Scheme::Basic, Scheme::Pop] {
-            for &n in &self.ns {
+            for &n in self.ns.iter().chain(self.ns_plain.iter()) {
                 v.push(St::Multi { s, n, edit: None });
             }
         }
@@ -80,6 +85,7 @@ impl<C: Suite> Model for M07<C> {
     fn actions(&self, st: &St) -> Vec<Act> {
         match st {
             St::From(l) if l.len() < 3 => SCHEMES.iter().flat_map(|s| [Act::Append(*s, false), Act::Append(*s, true)]).collect(),
+            St::Multi { n, edit: None, .. } if self.ns_plain.contains(n) => vec![Act::Edit(Edit::Omit(0)), Act::Edit(Edit::Omit(*n - 1)), Act::Edit(Edit::Reorder)],
             St::Multi { n, edit: None, .. } => {
                 let mut a = vec![];
                 for i in 0..*n {
@@ -213,6 +219,10 @@ impl<C: Suite> Model for M07<C> {
                     rk += <C::R as rf::RefSuite>::pk_from(&Vec::<u8>::from(k)).unwrap();
                 }
                 o.expect(&format!("C07:multikey-is-group-sum:{}", g), Vec::<u8>::from(&mpk) == rf::enc(&rk), "reference point sum", "differs");
+                if edit.is_none() && n <= 5 {
+                    expect_ct_move(o, "C07", &format!("MultiSignature<{}>", g), &ms, &mk_multi_sig::<C>(s, *sigs[0].as_raw_value()));
+                    expect_ct_move(o, "C07", &format!("MultiPublicKey<{}>", g), &mpk, &MultiPublicKey::<C>(foreign.0));
+                }
                 let v = guard(|| ms.verify(mpk, &msg));
                 o.calls(3);
                 let acc = matches!(v, Ok(Ok(())));
